@@ -205,7 +205,47 @@ def rule_equivalency_canonical(ctx: Ctx) -> None:
         raise AnalysisError("mixed_stabilizer_equivalency: no tableau comparison found")
 
 
+def rule_no_sign_precondition(ctx: Ctx) -> None:
+    """convert.no-sign-precondition: a stabilizer -> graph conversion accepts |G> in *any* generating set, and products of the standard
+    generators carry minus signs (K_a K_b = -Y.Y.. for adjacent a, b).  So no assertion / raise in these functions may reject an input on
+    its sign vector alone (a test that reads `.phase` and neither matrix): signs are dealt with by the canonical-form comparison and the
+    phase-correction gates, not by a precondition."""
+    repo = ctx.repo
+    m = repo.module(SRC)
+    n = 0
+    for q in ("stabilizer_to_graph", "state_to_graph", "_graph_finder", "_phase_correction"):
+        fn = repo.try_anchor(SRC, q)
+        if fn is None:
+            continue
+        n += 1
+        ctx.touch(m, fn)
+        bad = None
+        for st in ast.walk(fn):
+            test = None
+            if isinstance(st, ast.Assert):
+                test = st.test
+            elif isinstance(st, ast.If) and any(isinstance(x, ast.Raise) for b in st.body for x in ast.walk(b)) and not st.orelse:
+                test = st.test
+            if test is None:
+                continue
+            t = norm(test)
+            reads_phase = ".phase" in t or "phase_vector" in t or "r_vector" in t
+            reads_matrix = any(w in t for w in ("x_matrix", "z_matrix", ".table", "canonical_form", "equivalency", "to_labels"))
+            if reads_phase and not reads_matrix:
+                bad = st
+                break
+        if bad is not None:
+            ctx.fail("convert.no-sign-precondition", m, bad,
+                     f"{q} rejects its input on the sign vector alone (`{short(bad, 80)}`): a graph state given by a generating set with a negative generator "
+                     f"(the 3-path as {{XZI, -YXY, IZX}}) is refused although it is a graph state", func=q, construct=f"{q}: precondition on signs")
+        else:
+            ctx.ok("convert.no-sign-precondition", m, fn, what=f"{q}: no precondition on the sign vector alone")
+    if n < 2:
+        raise AnalysisError("convert.no-sign-precondition: conversion functions not found")
+
+
 def run(ctx: Ctx) -> None:
+    rule_no_sign_precondition(ctx)
     rule_equivalency_canonical(ctx)
     from ..rules import tableau as _tbx
     _tbx.rule_xz_rowops(ctx, ["graphiq/backends/stabilizer/functions/linalg.py", "graphiq/backends/stabilizer/functions/stabilizer.py"])  # stabilizer -> graph conversions row-reduce the generators
@@ -349,6 +389,7 @@ def _filtered_positions(src: str) -> str:
 
 
 KNOCKOUTS = [
+    Knockout("graph-conversion-refuses-negative-signs", SRC, sub_once("        tableau = input_stabilizer\n        graph = _graph_finder(tableau.x_matrix, tableau.z_matrix)\n", "        tableau = input_stabilizer\n        assert not np.any(tableau.phase), \"Input stabilizer is not a graph state.\"\n        graph = _graph_finder(tableau.x_matrix, tableau.z_matrix)\n"), "convert.no-sign-precondition", "precondition on signs"),
     Knockout("row-reduction-z-block-added-from-other-row", "graphiq/backends/stabilizer/functions/linalg.py", sub_nth("                z_matrix = add_rows(z_matrix, pivot[0], j)\n", "                z_matrix = add_rows(z_matrix, the_ones[0], j)\n", 0), "sibling.xz-rowops", "_row_red_one_step"),
     Knockout("position-finder-starts-before-first-column", SRC, sub_once("    pivot = [0, 0]\n    n = x_matrix.shape[0]\n    pos_list = []", "    pivot = [-1, -1]\n    n = x_matrix.shape[0]\n    pos_list = []"), "index.negative-start", "_position_finder"),
     Knockout("gf2-inverse-without-pivoting", SRC, sub_once("def _graph_finder(x_matrix, z_matrix, get_ops_data=False):", "def _gf2_inverse(matrix):\n    n = matrix.shape[0]\n    augmented = np.hstack([matrix.astype(int) % 2, np.eye(n, dtype=int)])\n    for col in range(n):\n        assert augmented[col, col] == 1\n        for row in range(n):\n            if row != col and augmented[row, col] == 1:\n                augmented[row] = (augmented[row] + augmented[col]) % 2\n    return augmented[:, n:]\n\n\ndef _graph_finder(x_matrix, z_matrix, get_ops_data=False):"), "elim.no-pivot", "_gf2_inverse"),
